@@ -30,6 +30,10 @@ def run(ctx):
         scoring(ctx, cell)
     rebuild(ctx)
     divergences(ctx)
+    init_table(ctx)
+    fit_block(ctx)
+    kde(ctx)
+    lifecycle(ctx)
 
 
 def init(ctx):
@@ -335,3 +339,171 @@ def divergences(ctx):
     tj = ctx.trace(PC, "_jensen_shannon_distance")
     want = atom(("call", "scipy.spatial.distance.jensenshannon", (q.sub(P("density_reference"), const("density")), q.sub(P("density_test"), const("density"))), ()))
     ctx.ob("FRM", PC + "._jensen_shannon_distance", "Jensen-Shannon distance of the two density vectors", tj.retval == want, q.short(tj.retval, 120))
+
+
+# ---------------------------------------------------------------------------
+# constructor table, fit-block stores, key agreement, KDE formula, logs, lifecycle, the inner Page-Hinkley test
+
+def _noidx(t):
+    """term with every loop index renamed to one symbol (keys built in different loops over the same range)"""
+    return T.subst(t, lambda a: atom(("sym", "i")) if a[0] == "idx" else None)
+
+
+def init_table(ctx):
+    empty_df = atom(("call", "pandas.DataFrame", (), ()))
+    for sc in (True, False):
+        tr = ctx.trace(PC, "__init__", assume=None)
+        fin = tr.final.attrs if tr.final is not None else {}
+        break
+    tab = {"num_pcs": T.NONE, "_build_reference_and_test": T.TRUE, "_reference_window": empty_df, "_test_window": empty_df, "_pca": T.NONE,
+           "_reference_pca_projection": empty_df, "_test_pca_projection": empty_df, "_density_reference": atom(("dict", ())), "lower": atom(("dict", ())),
+           "upper": atom(("dict", ())), "_change_score": atom(("list", (const(0),)))}
+    for k, w in tab.items():
+        got = fin.get(k)
+        ctx.ob("FRM-init", PC + ".__init__", "%s starts as %s" % (k, q.short(w, 30)), got == w or (w == atom(("dict", ())) and got == atom(("call", "dict", (), ()))),
+               q.short(got, 60) if got is not None else "unset")
+    sc = fin.get("_reference_scaler")
+    ok = False
+    if sc is not None:
+        leaves = list(q.ite_leaves(sc))
+        for c_, l in leaves:
+            la = l.single_atom()
+            if la is not None and la[0] == "call" and la[1] == "sklearn.preprocessing.StandardScaler":
+                on = [T.mk_cmp("==", P("online_scaling"), T.TRUE), T.mk_cmp("==", T.TRUE, P("online_scaling")), P("online_scaling")]
+                ok = len(c_) == 1 and any(c_[0] == o for o in on)
+    ctx.ob("FRM-init", PC + ".__init__", "a scaler exists exactly when online_scaling is on", ok, q.short(sc, 100) if sc is not None else "unset")
+
+
+def fit_block(ctx):
+    for metric in ("kl", "intersection"):
+        for sc in (True, False):
+            cell = {"divergence_metric": metric, "online_scaling": sc}
+            L = lab(cell)
+            tr = ctx.trace(PC, "update", assume=dict(cell, _drift_state=None, _build_reference_and_test=True), nonnull=("X",))
+            npc = tr.stores("num_pcs")
+            ok = len(npc) == 1
+            if ok:
+                a = npc[0].value.single_atom()
+                ok = a is not None and a[0] == "call" and a[1] == "len" and (a[2][0].single_atom() or ("", "", ""))[0] == "getattr" and a[2][0].single_atom()[2] == "components_" \
+                    and _rooted_pca(q.unmut(a[2][0].single_atom()[1]))
+            ctx.ob("FRM", U, "number of components = those the fitted PCA kept [%s]" % L, ok, q.short(npc[0].value, 80) if npc else "no store", npc[0] if npc else None)
+            for attr, win in (("_reference_pca_projection", "_reference_window"), ("_test_pca_projection", "_test_window")):
+                st = [e for e in tr.stores(attr)]
+                ok = len(st) == 1
+                if ok:
+                    a = st[0].value.single_atom()
+                    t = a[2][0].single_atom() if a is not None and a[0] == "call" and a[1] == "pandas.DataFrame" and a[2] else None
+                    ok = t is not None and t[0] == "mcall" and t[2] == "transform" and _rooted_pca(q.unmut(t[1])) and _win(t[3][0], win, sc)
+                ctx.ob("FRM", U, "%s = the %s %s projected on the components [%s]" % (attr, "scaled" if sc else "raw", win, L), ok, "", st[0] if st else None)
+            dr = [e for e in tr.mutations("_density_reference") if e.how == "setitem"]
+            ok = len(dr) == 1 and len(dr[0].path) == 1
+            if ok:
+                key = dr[0].path[0][1].single_atom()
+                ok = key is not None and key[0] == "fstr" and len(key[1]) == 2 and key[1][0] == const("PC") and (key[1][1] - const(1)).single_atom() is not None and (key[1][1] - const(1)).single_atom()[0] == "idx"
+                i = key[1][1] - const(1) if ok else None
+                lp = tr.loops.get(i.single_atom()[1]) if ok else None
+                it = lp["iter"].single_atom() if lp else None
+                ok = ok and it is not None and it[0] == "call" and it[1] == "range" and len(it[2]) == 1 and (it[2][0] == A("num_pcs") or (npc and it[2][0] == npc[0].value))
+            ctx.ob("IDX", U, "a reference density is stored for every component i under 'PC<i+1>' [%s]" % L, ok, "", dr[0] if dr else None)
+            if metric == "kl" and dr:
+                kd = [e for e in tr.calls() if e.d.get("fi") is not None and e.fi.name == "_build_kde" and e.func.qualname == U]
+                okk = len(kd) == 1 and _proj_root(kd[0].args[0]) == "_reference_pca_projection" and ok and _col_index(kd[0].args[0]) == i
+                ctx.ob("FRM", U, "kl: the reference density of component i is the KDE of the reference scores of component i [%s]" % L, okk, "", kd[0] if kd else None)
+    # scoring side: test density keys / sources agree with the reference side
+    for cell in cells():
+        L = lab(cell)
+        tr = upd(ctx, cell, _build_reference_and_test=False)
+        dt = [e for e in tr.mutations("_density_test") if e.how == "setitem"]
+        fresh = [e for e in tr.stores("_density_test")]
+        ok = len(dt) == 1 and len(fresh) == 1 and fresh[0].value in (atom(("dict", ())), atom(("call", "dict", (), ()))) and fresh[0].seq < dt[0].seq
+        ctx.ob("ORD", U, "the test densities of a scoring step start from an empty table [%s]" % L, ok, "", fresh[0] if fresh else (dt[0] if dt else None))
+        want_fn = "_jensen_shannon_distance" if cell["divergence_metric"] == "kl" else "_intersection_divergence"
+        dv = [e for e in tr.calls() if e.d.get("fi") is not None and e.fi.qualname == PC + "." + want_fn and e.func.qualname == U]
+        if dt and dv:
+            k_store = _noidx(dt[0].path[0][1])
+            a1 = q.unmut(dv[0].args[1]).single_atom()
+            a0 = q.unmut(dv[0].args[0]).single_atom()
+            k_read = _noidx(a1[2]) if a1 is not None and a1[0] == "sub" else None
+            kk = k_store.single_atom()
+            okk = k_read is not None and k_store == k_read and kk is not None and kk[0] == "fstr" and kk[1][0] == const("PC") and T.same(kk[1][1], atom(("sym", "i")) + const(1))
+            ctx.ob("AGREE", U, "test densities are stored and read under the same key 'PC<i+1>' as the reference densities [%s]" % L, okk,
+                   "stored under %s, read under %s" % (q.short(k_store, 40), q.short(k_read, 40) if k_read is not None else None), dt[0])
+            src = dt[0].value
+            fn = "_build_kde" if cell["divergence_metric"] == "kl" else "_build_histograms"
+            mk = [e for e in tr.calls() if e.d.get("fi") is not None and e.fi.name == fn and e.func.qualname == U]
+            i = kk[1][1] - const(1) if kk is not None and kk[0] == "fstr" else None
+            oks = len(mk) == 1 and T.mentions(mk[0].args[0], lambda z: z == ("attr", "_test_pca_projection")) and not T.mentions(mk[0].args[0], lambda z: z == ("attr", "_reference_pca_projection")) \
+                and i is not None and _col_index(mk[0].args[0]) is not None and _noidx(_col_index(mk[0].args[0])) == _noidx(i)
+            ctx.ob("FRM", U, "the test density of component i is built by %s from the current test scores of component i [%s]" % (fn, L), oks, "", mk[0] if mk else None)
+        # the score fed to the monitor is also logged
+        mon = [e for e in tr.calls() if e.callee[0] == "foreign" and e.callee[1] == "PageHinkley" and e.callee[2] == "update"]
+        lg = [e for e in tr.mutations("_change_score") if e.how == "method:append"]
+        if mon:
+            score = dict(mon[0].kwargs).get("X", mon[0].args[0] if mon[0].args else None)
+            ctx.ob("PAIR", U, "the score given to the monitor is recorded in the change-score log [%s]" % L,
+                   len(lg) == 1 and lg[0].value == atom(("tuple", (score,))) and set(map(id, lg[0].pc)) == set(map(id, mon[0].pc)), "", lg[0] if lg else mon[0])
+            ctx.ob("FWD", U, "the monitor used is the detector's own Page-Hinkley instance [%s]" % L, q.unmut(mon[0].recv) == A("_drift_detection_monitor"), q.short(mon[0].recv, 60), mon[0])
+        if cell["divergence_metric"] == "intersection":
+            winsor_exact(ctx, cell, tr)
+
+
+def winsor_exact(ctx, cell, tr):
+    L = lab(cell)
+    wm = [e for e in tr.of("localmut") if e.how == "setitem" and e.func.qualname == U and len(e.path) >= 1 and
+          (e.value.single_atom() or ("",))[0] == "sub" and _rooted_in(e.value.single_atom()[1], "lower") | _rooted_in(e.value.single_atom()[1], "upper")]
+    for e in wm:
+        comp = e.value.single_atom()[2]
+        bound = "lower" if _rooted_in(e.value.single_atom()[1], "lower") else "upper"
+        own = q.guards_in(e, U)
+        cmps = [g for g in own if q.is_cmp(g) is not None and T.mentions(g, lambda z: z == ("attr", bound))]
+        ok = False
+        for g in cmps:
+            c = q.is_cmp(g)
+            b = q.sub(A(bound), comp)
+            # lower: cell < lower  is  (cell - lower < 0)  or  (lower - cell > 0) ; upper: cell > upper  is  (cell - upper > 0)  or  (upper - cell < 0)
+            strict_same, strict_flip = ("<", ">") if bound == "lower" else (">", "<")
+            for op, cell_t in ((strict_same, c[2] + b), (strict_flip, b - c[2])):
+                if c[1] == op and not T.mentions(cell_t, lambda z: z == ("attr", bound)) and T.mentions(cell_t, lambda z: z[0] == "getattr" and z[2] == "iloc"):
+                    ok = True
+        ctx.ob("GRD", U, "a score is clamped to %s[i] exactly when it lies %s it [%s]" % (bound, "below" if bound == "lower" else "above", L), ok,
+               "guards: %s" % "; ".join(q.short(g, 70) for g in own[-3:]), e)
+    ctx.floor("winsorising stores [%s]" % L, len(wm), 2)
+
+
+def _win(t, attr, scaled):
+    """t is the (scaled / raw) window `attr` as it stands when the components are fitted"""
+    other = "_test_window" if attr == "_reference_window" else "_reference_window"
+    if not T.mentions(t, lambda z: z == ("attr", attr)):
+        return False
+    tf = [z for z in T.walk(t) if z[0] == "mcall" and z[2] in ("transform", "fit_transform") and _rooted_in(q.unmut(z[1]), "_reference_scaler")]
+    if not scaled:
+        return not tf and not (attr == "_reference_window" and T.mentions(t, lambda z: z == ("attr", other)))
+    want = "fit_transform" if attr == "_reference_window" else "transform"
+    return bool(tf) and all(z[2] == want or attr == "_test_window" for z in tf) and any(z[2] == want for z in tf)
+
+
+def kde(ctx):
+    tr = ctx.trace(PC, "_build_kde")
+    s = P("sample")
+    col = atom(("mcall", atom(("getattr", s, "values")), "reshape", (const(-1), const(1)), ()))
+    bw = const(1.06) * atom(("call", "numpy.std", (s,), (("ddof", const(1)),))) * atom(("pow", atom(("call", "len", (s,), ())), const(-1) / const(5)))
+    ret = tr.retval
+    obj = q.sub(ret, const("object")) if ret is not None else None
+    den = q.sub(ret, const("density")) if ret is not None else None
+    oa = obj.single_atom() if obj is not None else None
+    ok = oa is not None and oa[0] == "mcall" and oa[2] == "fit" and oa[3] == (col,)
+    if ok:
+        k = oa[1].single_atom()
+        kw = dict(k[3]) if k is not None and k[0] == "call" and k[1] == "sklearn.neighbors.KernelDensity" else {}
+        ok = kw.get("kernel") == const("epanechnikov") and kw.get("bandwidth") is not None and T.same(kw["bandwidth"], bw)
+    ctx.ob("FRM", PC + "._build_kde", "Epanechnikov KDE with bandwidth 1.06 * sd(sample, ddof=1) * n^(-1/5), fitted on the sample", ok, q.short(obj, 200) if obj is not None else "")
+    da = den.single_atom() if den is not None else None
+    okd = da is not None and da[0] == "call" and da[1] in ("exp", "numpy.exp") and da[2][0] == atom(("mcall", obj, "score_samples", (col,), ()))
+    ctx.ob("FRM", PC + "._build_kde", "density = exp(log-density of the fitted estimate at the sample points)", okd, q.short(den, 200) if den is not None else "")
+
+
+def lifecycle(ctx):
+    from . import common, c04
+    common.lifecycle(ctx, ["PCACD", "PageHinkley"])
+    common.init_table(ctx, "PageHinkley", {"_max": 0, "_min": 0, "_sum": 0, "_mean": 0})
+    c04.page_hinkley(ctx)
